@@ -8,7 +8,11 @@
    RFC 8259 escape text) and the boolean oracles.  Definitions only.
 
    The model describes the code AFTER finding D11 is repaired (high-surrogate test
-   (code & 0xFC00) == 0xD800 instead of (code >> 8) == 0xD8).
+   (code & 0xFC00) == 0xD800 instead of (code >> 8) == 0xD8), and with the repairs of
+   the JSON component in place that touch UnEscape outside the property's domain:
+   D15 (a backslash as the last unit returns 0 instead of reading content[length]) and
+   D61 (template flag Closed_T: the parser's calls return 0 when the closing quote is
+   missing).  Neither branch is reachable from the texts the theorems speak about.
 
    Conventions: code units and machine integers are N; SizeT32 arithmetic that can
    wrap is written [u32]; Char_T(x) is [cast w x] with w = sizeof(Char_T) in {1,2,4};
@@ -137,58 +141,58 @@ Definition u_branch (w : N) (r2 : list N) : ubr :=
   else UBFail.
 
 (* outcome of UnEscape: return value (0 = failure) and the stream's content;
-   UOob = content[offset] read at offset = length (one past the buffer);
-   UFuel = the fuel of the model ran out (excluded by unescape_fuel_ok) *)
-Inductive ures := UFuel | UOob | URet (ret : N) (out : list N).
+   UFuel = the fuel of the model ran out (excluded by c20_unescape_total).
+   No read outside the text remains: content[offset] is read under offset < length only *)
+Inductive ures := UFuel | URet (ret : N) (out : list N).
 
 (* if (stream.IsNotEmpty()) stream.Write(content + offset2, offset - offset2) *)
 Definition flush (stream pend : list N) : list N :=
   match stream with [] => [] | _ => stream ++ pend end.
 
 (* state: [rest] = content from offset on, [off] = offset, [pend] = content[offset2..offset),
-   [stream] = what has been written so far *)
-Fixpoint unesc (fuel : nat) (w : N) (rest : list N) (off : N) (pend stream : list N) : ures :=
+   [stream] = what has been written so far; [closed] = template argument Closed_T *)
+Fixpoint unesc (fuel : nat) (closed : bool) (w : N) (rest : list N) (off : N) (pend stream : list N) : ures :=
   match fuel with
   | O => UFuel
   | S k =>
     let J := jnot_of w in
     match rest with
-    | [] => URet off (flush stream pend)
+    | [] => if closed then URet 0 stream else URet off (flush stream pend)
     | c :: r =>
       if c =? jq J then URet (off + 1) (flush stream pend)
       else if c =? jbs J then
         let stream1 := stream ++ pend in
         match r with
-        | [] => UOob
+        | [] => URet 0 stream1                           (* if (offset >= length) return 0 *)
         | ch :: r2 =>
-          if (ch =? jq J) || (ch =? jbs J) || (ch =? jsl J) then unesc k w r2 (off + 2) [] (stream1 ++ [ch])
-          else if ch =? jb J then unesc k w r2 (off + 2) [] (stream1 ++ [cbs J])
-          else if ch =? jt J then unesc k w r2 (off + 2) [] (stream1 ++ [ctab J])
-          else if ch =? jn J then unesc k w r2 (off + 2) [] (stream1 ++ [clf J])
-          else if ch =? jf J then unesc k w r2 (off + 2) [] (stream1 ++ [cff J])
-          else if ch =? jr J then unesc k w r2 (off + 2) [] (stream1 ++ [ccr J])
+          if (ch =? jq J) || (ch =? jbs J) || (ch =? jsl J) then unesc k closed w r2 (off + 2) [] (stream1 ++ [ch])
+          else if ch =? jb J then unesc k closed w r2 (off + 2) [] (stream1 ++ [cbs J])
+          else if ch =? jt J then unesc k closed w r2 (off + 2) [] (stream1 ++ [ctab J])
+          else if ch =? jn J then unesc k closed w r2 (off + 2) [] (stream1 ++ [clf J])
+          else if ch =? jf J then unesc k closed w r2 (off + 2) [] (stream1 ++ [cff J])
+          else if ch =? jr J then unesc k closed w r2 (off + 2) [] (stream1 ++ [ccr J])
           else if (ch =? jcu J) || (ch =? ju J) then
             match u_branch w r2 with
             | UBFail => URet 0 stream1
-            | UBOk e r' adv => unesc k w r' (off + 2 + adv) [] (stream1 ++ e)
+            | UBOk e r' adv => unesc k closed w r' (off + 2 + adv) [] (stream1 ++ e)
             end
           else URet 0 stream1
         end
       else if (c =? clf J) || (c =? ctab J) || (c =? ccr J) then URet 0 stream
-      else unesc k w r (off + 1) (pend ++ [c]) stream
+      else unesc k closed w r (off + 1) (pend ++ [c]) stream
     end
   end.
 
-Definition unescape (w : N) (content : list N) : ures :=
-  unesc (S (length content)) w content 0 [] [].
+Definition unescape (closed : bool) (w : N) (content : list N) : ures :=
+  unesc (S (length content)) closed w content 0 [] [].
 
 (* JSON.hpp parseValue, case QuoteChar: [content] is the text after the opening
-   quote up to the end of the document; the value is the stream if it is not
-   empty, else the first len-1 units of the text itself *)
+   quote up to the end of the document (UnEscape<true>); the value is the stream if
+   it is not empty, else the first len-1 units of the text itself *)
 Inductive pres := PErr (e : ures) | PFail | PStr (s : list N).
 
 Definition parse_string_value (w : N) (content : list N) : pres :=
-  match unescape w content with
+  match unescape true w content with
   | URet len s =>
     if len =? 0 then PFail
     else PStr (match s with [] => firstn (N.to_nat (len - 1)) content | _ => s end)
@@ -269,6 +273,24 @@ Definition json_escape (k1 k2 : ecase) (cp : N) : list N :=
 (* a unit that UnEscape copies unchanged: not quote, backslash, LF, TAB, CR *)
 Definition plainb (c : N) : bool :=
   negb ((c =? 34) || (c =? 92) || (c =? 10) || (c =? 9) || (c =? 13)).
+
+(* ------------------------------------------------------------------ *)
+(* JSON string bodies as sequences of items (for the unbounded theorems) *)
+
+(* a unit copied unchanged, or the escape of one scalar value *)
+Inductive item := IPlain (c : N) | IEsc (k1 k2 : ecase) (cp : N).
+
+Definition render_item (it : item) : list N :=
+  match it with IPlain c => [c] | IEsc k1 k2 cp => json_escape k1 k2 cp end.
+Definition value_item (w : N) (it : item) : list N :=
+  match it with IPlain c => [c] | IEsc _ _ cp => std_utf w cp end.
+Definition item_ok (it : item) : Prop :=
+  match it with IPlain c => plainb c = true | IEsc _ _ cp => scalar cp end.
+Definition is_plain (it : item) : bool := match it with IPlain _ => true | IEsc _ _ _ => false end.
+
+(* the JSON text of the body, and the string value it denotes *)
+Definition render (items : list item) : list N := concat (map render_item items).
+Definition value (w : N) (items : list item) : list N := concat (map (value_item w) items).
 
 (* ------------------------------------------------------------------ *)
 (* Oracles (decide the specification on an implementation result)       *)
